@@ -15,7 +15,7 @@ import (
 func TestC06(t *testing.T) {
 	ev := vlib.NewEvidence("C06", "exploration",
 		"a valid session (2 hosts, 2 clients, 2 wallets) is advanced to a random point; then one refused request (bit-flipped signature, other key, malformed signature, replay of an accepted request, nonce older than the freshness window) is injected against each of the 7 signed endpoints naming a live victim identity with a nonce far above the victim's; the digest of all RPC-reachable pool state and of the calls seen by fake hosts must be unchanged, and the victim's next correctly signed request with a smaller-but-fresh nonce must pass verification; non-trivial = refused request injected into a session holding balances/peers; distinct = (endpoint, refusal kind, session point)")
-	kinds := []string{"bitflip", "wrong-key", "malformed", "replay", "too-old", "other-registered-identity-same-connection"}
+	kinds := []string{"bitflip", "wrong-key", "malformed", "replay", "too-old", "other-registered-identity-same-connection", "replay-under-other-spelling", "replay-while-nonce-store-faults"}
 	points := vlib.Scale(6, 60)
 	for _, driver := range vlib.Drivers() {
 		for pt := 0; pt < points; pt++ {
@@ -120,6 +120,28 @@ func TestC06(t *testing.T) {
 						}
 						ownNonce = n
 						forgedNonce = n
+					case "replay-under-other-spelling", "replay-while-nonce-store-faults":
+						// an accepted request of the victim, captured and sent again
+						n := w.NextNonce(identity)
+						params = append([]interface{}{vlib.RefSign(victim.Key, ep.Method, identity, n, args...), identity, n}, args...)
+						first := guardedCall(w.Local, ep.Method, params...)
+						if !first.Accepted {
+							ev.Violate("setup:first-copy-refused:"+ep.Method, map[string]interface{}{"err": fmt.Sprint(first.Err), "panic": first.Panic})
+						}
+						ownNonce = n
+						forgedNonce = n
+						if kind == "replay-under-other-spelling" {
+							sp := strings.ToUpper(identity)
+							if len(identity) <= 42 {
+								sp = strings.ToLower(identity)
+							}
+							params[1] = sp
+						} else if lw.chaos != nil {
+							// the nonce store is in trouble exactly when the replay arrives
+							lw.chaos.ResetCalls()
+							lw.chaos.Fail = func(op string, n int) bool { return op == "CheckAndSaveNonce" }
+							defer func() { lw.chaos.Fail = nil }()
+						}
 					case "too-old":
 						old := time.Now().Add(-16 * time.Minute).UnixNano()
 						params = append([]interface{}{vlib.RefSign(victim.Key, ep.Method, identity, old, args...), identity, old}, args...)
@@ -144,6 +166,9 @@ func TestC06(t *testing.T) {
 					}
 					before := w.Digest(universe, accounts)
 					out := guardedCall(svc, ep.Method, params...)
+					if lw.chaos != nil {
+						lw.chaos.Fail = nil
+					}
 					after := w.Digest(universe, accounts)
 					ev.Case(fmt.Sprintf("%s/%s/%s/point%d", driver, ep.Method, kind, pt), true)
 					ev.Count("refusals:"+kind, 1)
@@ -151,7 +176,7 @@ func TestC06(t *testing.T) {
 					switch {
 					case out.Panic != "":
 						ev.Violate(fmt.Sprintf("panic:%s:%s", ep.Method, kind), detail)
-					case !out.Verify:
+					case !out.Verify && !(kind == "replay-while-nonce-store-faults" && out.Err != nil && !out.Accepted):
 						ev.Violate(fmt.Sprintf("not-refused:%s:%s", ep.Method, kind), detail)
 					case before != after:
 						detail["diff"] = diffLines(before, after)
@@ -160,7 +185,7 @@ func TestC06(t *testing.T) {
 					// the owner's next request: smaller than the forged nonce, but fresh
 					if kind != "too-old" {
 						next := ownNonce + 1 + int64(r.Intn(1000))
-						if kind != "replay" && next >= forgedNonce {
+						if !strings.HasPrefix(kind, "replay") && next >= forgedNonce {
 							next = ownNonce + 1
 						}
 						var nerr error
